@@ -232,6 +232,13 @@ func (w *Worker) runPath(fn *ssa.Function, prefix []Dec, fixed map[string]uint64
 	ex.allowPanic = o.AllowPanic
 	ex.preemptBound = o.Preempt
 	ex.runThreads(func() {
+		for _, p := range w.prog.AllPackages() {
+			if p.Pkg.Path() == "unicode/utf8" { // small pure-data package whose tables executed library code indexes
+				if f := p.Func("init"); f != nil {
+					ex.call(Closure{fn: f}, nil, nil)
+				}
+			}
+		}
 		if initFn := w.pkg.Func("init"); initFn != nil {
 			ex.call(Closure{fn: initFn}, nil, nil)
 		}
